@@ -145,6 +145,14 @@ func Datums(s *ref.Schema, full bool) []ref.Datum {
 		return out
 	case "array":
 		ds := Datums(s.Items, false)
+		if s.Items.Type == "null" || (s.Items.Type == "record" && len(s.Items.Fields) == 0) {
+			// items that encode to zero bytes: also an array with more items than bytes follow it
+			many := make([]ref.Datum, 12)
+			for i := range many {
+				many[i] = ds[0]
+			}
+			return []ref.Datum{ref.DArray(), ref.DArray(ds[0], ds[0]), ref.DArray(many...)}
+		}
 		out := []ref.Datum{ref.DArray(), ref.DArray(ds[1%len(ds)]), ref.DArray(ds[0], ds[len(ds)-1]), ref.DArray(ds[len(ds)-1], ds[0], ds[1%len(ds)])}
 		if full {
 			for _, d := range Datums(s.Items, true) {
